@@ -31,8 +31,13 @@ def build_system(rng, T=None, A=None, n_sites=None, inner=None, labels_mode=None
     site_coords = np.array([[(g // 64) / 8, ((g // 8) % 8) / 8, (g % 8) / 8] for g in grid])
     nl = int(rng.integers(1, 4))
     labels = [f'L{int(rng.integers(nl))}' for _ in range(n_sites)]
-    return dict(lattice_name=name, lattice=lat.tolist(), s=s.T.tolist(), i=i.T.tolist(),
+    case = dict(lattice_name=name, lattice=lat.tolist(), s=s.T.tolist(), i=i.T.tolist(),
                 sites=site_coords.tolist(), labels=labels, seed=int(rng.integers(1 << 30)))
+    # the site structure may carry the cell of a reference crystal; a residence threshold may be set
+    if rng.random() < 0.4:
+        case['site_cell'] = gem.reference_cell(rng, lat).tolist()
+    case['minimal_residence'] = int(rng.choice([0, 0, 1, 3, 6]))
+    return case
 
 
 def realise(case):
@@ -47,7 +52,7 @@ def realise(case):
     coords = base + vib
     traj = gem.make_traj(coords, lat, ['Li'] * A + ['O'], time_step=2e-15, metadata={'temperature': 500.0})
     diff = traj.filter('Li')
-    sites = gem.make_sites(lat, case['sites'], labels=case['labels'])
+    sites = gem.make_sites(case.get('site_cell', lat), case['sites'], labels=case['labels'])
     events = _calculate_transition_events(atom_sites=s, atom_inner_sites=i)
     tr = Transitions(trajectory=traj, diff_trajectory=diff, sites=sites, events=events, states=s, inner_states=i)
     return tr, s, i
@@ -139,8 +144,9 @@ def check_case(out: Outcome, case, tag):
                 out.fail('property', 'occupancy-of-part', case, expected=want, observed=pocc, note=f'part {k} of {n_parts}')
                 break
     # --- jumps
+    mr = int(case.get('minimal_residence', 0))
     try:
-        jumps = Jumps(tr)
+        jumps = Jumps(tr, minimal_residence=mr)
     except ValueError:
         out.count('no-jumps')
         if touches_nosite and len(set(map(tuple, ev_rows))) >= 2:
@@ -199,10 +205,16 @@ def check_case(out: Outcome, case, tag):
     # rates = aggregation of the per-part counters
     for n_parts in (2, 3):
         try:
-            parts = [p.counter() for p in jumps.split(n_parts)]
-            rates = jumps.rates(n_parts)
+            # the parts' counters, obtained independently of Jumps.split: the time parts of the transitions analysed with the
+            # same conversion settings as the whole
+            parts = [Jumps(p, minimal_residence=mr).counter() for p in tr.split(n_parts)]
         except ValueError:
             out.count('rates-refused')
+            continue
+        try:
+            rates = jumps.rates(n_parts)
+        except ValueError as e:
+            out.fail('property', 'rates-aggregation', case, expected='rates', observed='ValueError: ' + str(e)[:80])
             continue
         part_time = jumps.trajectory.total_time / n_parts
         for pair in jumps.site_pairs:
